@@ -440,7 +440,7 @@ func init() {
 		Level: "exploration",
 		Cases: func(ctx *Ctx) int {
 			if ctx.Tier == "thorough" {
-				return 2500000
+				return 15000000
 			}
 			return 400000
 		},
